@@ -303,14 +303,15 @@ def check_c18(tier):
     V = Verdict('C18', tier)
     V.assumptions = ['histories respect the asserted preconditions of the library (DESIGN.md 4.3)', 'sanitizers: g++ 12 and clang 14 ASan+UBSan (no recovery), clang 14 MSan with the instance storage poisoned before construction; allocation entry points are wrapped/replaced and counted while a library call is on the stack']
     # (config, deviation bound plain build, deviation bound sanitizer builds, menus, operations)
-    base = [('P8c', 0, 0, M_P0, og('CORE', 'PLAN', 'REPORT')), ('T2', 1, 1, M_TP, O_TALL), ('T5', 1, 1, M_TP, O_TALL), ('T6', 1, 1, M_TP, O_TALL), ('P5', 1, 1, M_P, O_P | og('PLAN_REMOVE', 'COPY', 'DESTROY', 'REACT')), ('P7', 1, 0, M_P0 | mf('PAYLOAD'), O_P | og('PAYLOAD')), ('P3', 2, 1, M_P, O_PALL), ('T3', 2, 2, M_T, O_TALL), ('A2', 1, 0, mf('PHASE_REQ', 'GUARD_CANCEL', 'REPORT', 'PLAN_EDIT', 'PAYLOAD'), og('CORE', 'PLAN', 'REPORT', 'MANUAL', 'SERIAL', 'REPLAY', 'COPY', 'DESTROY', 'PAYLOAD', 'LOG'))]
+    base = [('P8c', 0, 0, M_P0, og('CORE', 'PLAN', 'REPORT'), ('asan-clang',)), ('T2', 1, 1, M_TP, O_TALL), ('T5', 1, 1, M_TP, O_TALL), ('T6', 1, 1, M_TP, O_TALL), ('P5', 1, 1, M_P, O_P | og('PLAN_REMOVE', 'COPY', 'DESTROY', 'REACT')), ('P7', 1, 0, M_P0 | mf('PAYLOAD'), O_P | og('PAYLOAD')), ('P3', 2, 1, M_P, O_PALL), ('T3', 2, 2, M_T, O_TALL), ('A2', 1, 0, mf('PHASE_REQ', 'GUARD_CANCEL', 'REPORT', 'PLAN_EDIT', 'PAYLOAD'), og('CORE', 'PLAN', 'REPORT', 'MANUAL', 'SERIAL', 'REPLAY', 'COPY', 'DESTROY', 'PAYLOAD', 'LOG'))]
     if tier == 'thorough': base = [('T2', 2, 2, M_TP, O_TALL), ('T5', 2, 1, M_TP, O_TALL), ('T6', 2, 2, M_TP, O_TALL), ('T1', 2, 2, M_T, O_TALL), ('P5', 2, 1, M_PG, O_PALL), ('P7', 1, 1, M_P | mf('PAYLOAD'), O_PALL), ('P3', 3, 2, M_P, O_PALL), ('T3', 3, 3, M_T, O_TALL), ('P2', 1, 0, M_P0 | mf('PAYLOAD'), O_P | og('PAYLOAD', 'MANUAL', 'REPLAY')), ('T4', 1, 1, M_T, O_TALL), ('I1', 1, 1, M_T, O_T), ('P4', 0, 0, M_P0 | mf('PAYLOAD'), O_P | og('PAYLOAD'))]
     specs = []
-    for (c, d, ds, m, o) in base:
+    for bt in base:
+        (c, d, ds, m, o) = bt[:5]; only = bt[5] if len(bt) > 5 else None      # `only`: a large configuration that runs under the named sanitizer builds only
         specs.append(S(c, d, m, o, variant='plain', flags=['--copy', '--replica'], props=['C18']))     # alignment + allocation monitors, full speed
-        for v in SAN:
+        for v in (only or SAN):
             specs.append(S(c, ds, m, o, variant=v, flags=['--copy', '--replica'], props=['C18'], share=3 if v == 'msan' else 1))
-        if c in ('T2', 'P3', 'P5', 'T3') or tier == 'thorough':
+        if (c in ('T2', 'P3', 'P5', 'T3') or tier == 'thorough') and not only:
             specs.append(S(c, min(ds, 1) if tier == 'quick' else ds, m, o, variant=SAN_O0, flags=['--copy', '--replica'], props=['C18'], share=2))
     vc.run_specs(V, specs, tier, budget=200 if tier == 'quick' else 3600)
     # containers and the extreme machine sizes under ASan+UBSan
